@@ -510,6 +510,15 @@ retry_peek:
 		struct qb_ipc_request_header *hdr = NULL;
 		hdr = (struct qb_ipc_request_header *)msg;
 		to_recv = hdr->size;
+		/*
+		 * The size comes from the peer: never let it make us write
+		 * beyond the caller's buffer (an over-long datagram is cut
+		 * short; whoever interprets the message will see that it is
+		 * shorter than it claims).
+		 */
+		if (to_recv < 0 || to_recv > len) {
+			to_recv = len;
+		}
 	}
 
 	result = recv(one_way->u.us.sock, data, to_recv,
